@@ -15,7 +15,7 @@ RULE = (
     "fault enumeration: session scripts for 2-3 concurrent connections (handshake, enableBLOB Never/Also/Only, client writes, "
     "device text and BLOB traffic; a fixed catalogue of scripts enumerated exhaustively plus Hypothesis-drawn scripts) x fault kind "
     "{EOF, read error, EOF inside a message, junk then EOF, exception while one of its messages is handled by a device, write "
-    "error on the peer followed by read error} x EVERY step index of the script x victim connection x transport of the victim "
+    "error on the peer followed by read error, EOF of two connections in the same loop iteration} x EVERY step index of the script x victim connection x transport of the victim "
     "{TCP handler_func, TTY handle}, on the real connection handlers over fake streams. Oracle after the fault and a settle: the "
     "victim's handler task has finished, its writer is closed (TCP), it is in neither router.clients nor router.blob_routing nor "
     "ConnectionHandler.connections, and no delivery is attempted to it afterwards (spy); every other connection is still "
@@ -25,7 +25,7 @@ RULE = (
 )
 ASSUMPTIONS = ["fake streams stand in for sockets/stdio: EOF = read returns empty, errors are raised by read()/write()"]
 
-FAULTS = ["eof", "read-error", "eof-in-message", "junk-eof", "handler-exception", "write-error-then-read-error"]
+FAULTS = ["eof", "read-error", "eof-in-message", "junk-eof", "handler-exception", "write-error-then-read-error", "eof-of-two-at-once"]
 
 
 class Exploding:
@@ -121,6 +121,14 @@ def run_script(case):
             victim.write_error()
             do({"s": "devtext", "val": "lost"})
             victim.read_error()
+        second_victim = None
+        if fault == "eof-of-two-at-once" and nconn >= 3:
+            # two connections end in the same loop iteration
+            second_victim = peers[(victim_i + 1) % nconn]
+            victim.eof()
+            second_victim.eof()
+        elif fault == "eof-of-two-at-once":
+            victim.eof()
         s.settle()
         if fault == "handler-exception" and boom.calls == 0:
             raise Failure("harness:trigger-not-delivered", "the exploding device was never called")
@@ -139,6 +147,9 @@ def run_script(case):
                 raise Failure(f"victim-writer-open:{fault}", where)
             if h in server_tcp.ConnectionHandler.connections:
                 raise Failure(f"victim-in-connections-list:{fault}", where)
+        if second_victim is not None:
+            if not second_victim.task.done() or second_victim.handler in router.clients or second_victim.handler in router.blob_routing:
+                raise Failure(f"second-victim-not-cleaned:{second_victim.kind}", where)
         spy = {"n": 0}
         orig = h.message_from_device
 
@@ -151,8 +162,14 @@ def run_script(case):
         newcomer = s.connect(victim.kind if victim.kind == "tcp" else "tcp")
         for p in peers + [newcomer]:
             p.new_output()
+        # the newcomer is served from scratch: its handshake is answered
+        newcomer.send(session.GETPROPS)
+        if not any(e.tag == "defTextVector" and e.get("name") == "TXT" for e in newcomer.elements(newcomer.new_output())):
+            raise Failure(f"newcomer-handshake-not-answered:{fault}", f"{where}: a connection opened after the fault got no definitions for its getProperties")
         for step in script[at:]:
             if step.get("c", 0) % nconn == victim_i and step["s"] in ("hs", "blob", "write"):
+                continue
+            if second_victim is not None and peers[step.get("c", 0) % nconn] is second_victim and step["s"] in ("hs", "blob", "write"):
                 continue
             do(step)
         s.settle()
@@ -164,7 +181,7 @@ def run_script(case):
         if spy["n"]:
             raise Failure(f"delivery-attempted-to-closed-connection:{victim.kind}:{fault}", f"{where}: {spy['n']} deliveries")
         for i, p in enumerate(peers + [newcomer]):
-            if p is victim:
+            if p is victim or p is second_victim:
                 continue
             who = "newcomer" if p is newcomer else f"bystander {i} ({p.kind})"
             if not p.registered or p.task.done() or (p.kind == "tcp" and p.writer_closed):
@@ -180,6 +197,23 @@ def run_script(case):
                     f"{'newcomer' if p is newcomer else 'bystander'}-traffic:{'text' if got_text != want_text else 'blob'}:{pol}:{fault}",
                     f"{where}: {who} with policy {pol}: text update received={got_text} (expected {want_text}), BLOB received={got_blob} (expected {want_blob})",
                 )
+        # finally everybody leaves in an orderly way: every later disconnect is handled as cleanly as the first
+        for p in peers + [newcomer]:
+            if p is victim or p is second_victim:
+                continue
+            p.eof()
+        s.settle()
+        for i, p in enumerate(peers + [newcomer]):
+            if not p.task.done() or p.handler in router.clients or p.handler in router.blob_routing:
+                raise Failure(f"later-disconnect-not-cleaned:{p.kind}:{fault}", f"{where}: connection {i} still registered / running after its own orderly EOF")
+        if server_tcp.ConnectionHandler.connections:
+            raise Failure(f"connections-list-not-empty:{fault}", f"{where}: {len(server_tcp.ConnectionHandler.connections)} entries left")
+        if router.clients or router.blob_routing:
+            raise Failure(f"router-not-empty-at-the-end:{fault}", f"{where}: clients={len(router.clients)} policies={len(router.blob_routing)}")
+        for ctx_ in s.unhandled():
+            exc = ctx_.get("exception")
+            if exc is not None and fault != "write-error-then-read-error":
+                raise Failure(f"task-exception:{type(exc).__name__}:{fault}", f"{where}: {exc!r}")
         inside = 0 < at < len(script)
         had_policy = bool(policy[victim_i])
         return inside and had_policy
